@@ -25,6 +25,20 @@ pub enum Case {
     /// execute(t) for every text in order on ONE calculator
     Purity(Vec<String>),
     Sessions(Vec<SOp>),
+    /// setter calls and evaluations interleaved on ONE calculator
+    Reconf(Vec<ROp>),
+}
+
+#[derive(Clone, Debug, Serialize, Deserialize)]
+pub enum ROp {
+    /// set_decimal_seperator + set_thousand_separator
+    Seps(String, String),
+    /// set_number_configuration(digits, remove zero fraction, rounding)
+    Num(u8, bool, bool),
+    /// set_timezone
+    Tz(String),
+    /// execute("en", text)
+    Eval(String),
 }
 
 /// texts chosen to touch every shared structure: alias rewrite, each rule family, a unit
@@ -120,6 +134,41 @@ impl Prop for C04 {
                 },
             ));
         }
+        {
+            let dr = tier.pick(3, 4);
+            f.push(Family::new(
+                "reconfiguration-histories",
+                Mode::Full,
+                &format!("every sequence of 1..={} operations on ONE calculator over [separators set to (',' '.') | ('.' ',') | ('.' '') | (',' ''); number format (0 digits) | (4 digits, keep zero fraction, no rounding); default zone CET | EST; evaluate one of 5 texts whose reading depends on the configuration ('1.250 + 1', '1,250 * 2', '2,5 usd to try', 'x = 1.5 km / x to m', '11:30 to EST')]: every evaluation equals the same text on a fresh calculator that was only given the configuration in force (the result is determined by the configuration, not by how it was reached or what was evaluated before)", dr),
+                move |ch| {
+                    let ops: Vec<ROp> = vec![
+                        ROp::Eval("1.250 + 1".into()),
+                        ROp::Eval("1,250 * 2".into()),
+                        ROp::Eval("2,5 usd to try".into()),
+                        ROp::Eval("x = 1.5 km\nx to m".into()),
+                        ROp::Eval("11:30 to EST".into()),
+                        ROp::Seps(",".into(), ".".into()),
+                        ROp::Seps(".".into(), ",".into()),
+                        ROp::Seps(".".into(), "".into()),
+                        ROp::Seps(",".into(), "".into()),
+                        ROp::Num(0, true, true),
+                        ROp::Num(4, false, false),
+                        ROp::Tz("CET".into()),
+                        ROp::Tz("EST".into()),
+                    ];
+                    let n = 1 + ch.choose(dr);
+                    let mut h = Vec::new();
+                    for _ in 0..n {
+                        h.push(ch.pick(&ops).clone());
+                    }
+                    // a history without an evaluation observes nothing
+                    if !h.iter().any(|o| matches!(o, ROp::Eval(_))) {
+                        return None;
+                    }
+                    Some(Case::Reconf(h))
+                },
+            ));
+        }
         let ds = tier.pick(3, 4);
         f.push(Family::new(
             "session-histories",
@@ -173,6 +222,7 @@ impl Prop for C04 {
                 v
             }
             Case::Sessions(ops) => exec_sessions(ctx, ops),
+            Case::Reconf(ops) => exec_reconf(ctx, ops),
         }
     }
 
@@ -321,5 +371,61 @@ fn exec_sessions(ctx: &mut Ctx, ops: &[SOp]) -> Verdict {
             }
         }
     }
+    v
+}
+
+fn exec_reconf(ctx: &mut Ctx, ops: &[ROp]) -> Verdict {
+    let mut v = Verdict { input: format!("{:?}", ops), class: "history-compared", compared: true, expected: "every evaluation equals the same text on a fresh calculator given only the configuration in force".into(), ..Default::default() };
+    let mut calc = ctx.fresh(&Cfg::default());
+    let mut model = Cfg::default();
+    let mut trace = String::new();
+    for (i, op) in ops.iter().enumerate() {
+        match op {
+            ROp::Seps(d, t) => {
+                calc.set_decimal_seperator(d.clone());
+                calc.set_thousand_separator(t.clone());
+                model.dec = Some(d.clone());
+                model.thou = Some(t.clone());
+            }
+            ROp::Num(d, rm, rd) => {
+                calc.set_number_configuration(*d, *rm, *rd);
+                model.num = Some((*d, *rm, *rd));
+            }
+            ROp::Tz(z) => {
+                if let Err(e) = calc.set_timezone(z.clone()) {
+                    v.violation = Some(format!("step {}: set_timezone({:?}) rejected: {}", i, z, e));
+                    return v;
+                }
+                model.tz = Some(z.clone());
+            }
+            ROp::Eval(t) => {
+                let run = obs::eval(&calc, "en", t);
+                v.evals += nlines(t) as u64;
+                let o = format!("{:?}", run);
+                let key = format!("reconf-ref|{}|{}", serde_json::to_string(&model).unwrap(), t);
+                let want = match ctx.memo.get(&key).cloned().or_else(|| crate::runner::shared_get(&key)) {
+                    Some(w) => w,
+                    None => {
+                        let fresh = ctx.fresh(&model);
+                        let w = format!("{:?}", obs::eval(&fresh, "en", t));
+                        crate::runner::shared_put(key.clone(), w.clone());
+                        ctx.memo.insert(key, w.clone());
+                        w
+                    }
+                };
+                trace.push_str(&format!("[{}] {} ;; ", i, run.brief()));
+                if o != want {
+                    if let Run::Panic(p) = &run {
+                        v.site = Some(p.site.clone());
+                    }
+                    v.violation = Some(format!("step {}: execute({:?}) differs from the same text on a fresh calculator with the configuration in force {}", i, t, serde_json::to_string(&model).unwrap()));
+                    v.expected = want;
+                    v.observed = o;
+                    return v;
+                }
+            }
+        }
+    }
+    v.observed = trace;
     v
 }
